@@ -107,6 +107,9 @@ def generate(seed, run, tier):
         names = ['memory', 'memory_rooms', 'rooms', 'keydoor', 'crossing', 'teleport', 'dynamic_obstacles', 'empty']
         for j in range(3):
             clients.append(reset_client(r, names[(k * 3 + j) % len(names)]))
+        for j, cspec in enumerate(clients):
+            # what a gym user sees: the numeric representations of states and observations are part of the history
+            cspec['outer'] = ['compact', 'default', 'no-overlap'][(k + j) % 3]
         rec['clients'] = clients
         ops = []
         for c in range(len(clients)):
@@ -128,6 +131,8 @@ def generate(seed, run, tier):
             lists.append([list(o) for o in lists[src]])
         else:
             clients.append(gen_client(r, run))
+            if r.random() < 0.3:
+                clients[-1]['outer'] = r.choice(['compact', 'default', 'no-overlap'])
             lists.append(client_ops(stream(seed, PROP, run, f'ops{c}'), r.randint(15, 50 if not big else 120)))
     rec['clients'] = clients
     rec['twin_of'] = {str(k): v for k, v in twin_of.items()}
@@ -231,6 +236,31 @@ class IsoSim(Sim):
                 self.violate('isolation', 'library_generator_touched', 'library_generator', self.tw.touched[n0][1], f'{name} touched the library generator: {self.tw.touched[n0]}')
         return out
 
+    def _reps(self, cl):
+        """representation objects of a client that asks for numeric histories (built once, after the spaces exist)"""
+        if 'reps' not in cl.meta:
+            from gym_gridverse.representations.observation_representations import make_observation_representation
+            from gym_gridverse.representations.state_representations import make_state_representation
+
+            name = cl.spec['outer']
+            srep = sut(make_state_representation, name, cl.env.state_space)
+            orep = sut(make_observation_representation, name, cl.env.observation_space)
+            cl.meta['reps'] = (None if isinstance(srep, Raised) else srep, None if isinstance(orep, Raised) else orep)
+        return cl.meta['reps']
+
+    def _numeric(self, cl, which, value):
+        """digest of the numeric representation of a state / observation (or how converting it failed)"""
+        if not cl.spec.get('outer'):
+            return ()
+        rep = self._reps(cl)[0 if which == 'state' else 1]
+        if rep is None:
+            return ('norep',)
+        arr = sut(rep.convert, value)
+        if isinstance(arr, Raised):
+            return ('raised', arr.type)
+        self.ctx.probe('numeric_representation_in_history')
+        return (sha({k: [str(np.asarray(v).dtype), np.asarray(v).tolist()] for k, v in sorted(arr.items())}),)
+
     def _hist(self, cl, *items):
         cl.history.append(items + (cl.rng_state(),))
         cl.meta.setdefault('hist_op', []).append(cl.meta.get('n_ops', 0))
@@ -249,7 +279,7 @@ class IsoSim(Sim):
         cl.started = True
         k = state_key(cl.env.state)
         self.ctx.state(k)
-        self._hist(cl, 'reset', sha(k))
+        self._hist(cl, 'reset', sha(k), *self._numeric(cl, 'state', cl.env.state))
 
     def op_step(self, cl, k):
         if not cl.started:
@@ -265,7 +295,7 @@ class IsoSim(Sim):
             self.ctx.probe('stochastic_draw')
         sk = state_key(cl.env.state)
         self.ctx.state(sk)
-        self._hist(cl, 'step', a.name, sha(sk), repr(float(r[0])), bool(r[1]))
+        self._hist(cl, 'step', a.name, sha(sk), repr(float(r[0])), bool(r[1]), *self._numeric(cl, 'state', cl.env.state))
 
     def op_read_obs(self, cl, n):
         if not cl.started:
@@ -277,7 +307,7 @@ class IsoSim(Sim):
                 self.ctx.count('sut_exception')
                 self._hist(cl, 'obs', 'raised', o.type)
                 return
-            self._hist(cl, 'obs', sha(state_key(o)))
+            self._hist(cl, 'obs', sha(state_key(o)), *self._numeric(cl, 'obs', o))
         if cl.rng_state() != g0:
             self.ctx.probe('stochastic_draw')
 
